@@ -286,3 +286,19 @@ Proof.
   rewrite (jparse_jdump t _ w2); [|rewrite !app_length; pose proof (tsize_le_length t); lia].
   rewrite <- (app_nil_r w2). rewrite (jskip_ws_app w2 [] H2). reflexivity.
 Qed.
+
+(* ---------------------------------------------------------------- mode a on SJSON *)
+(* two JSON documents in one file are not JSON: an SJSON file that was appended to cannot be read any more (ValueError) *)
+Theorem jload_two_docs a b : jload (jdump a ++ jdump b) = None.
+Proof.
+  unfold jload. rewrite (jparse_jdump a _ (jdump b)); [|rewrite app_length; pose proof (tsize_le_length a); lia].
+  pose proof (jdump_head b []) as H. rewrite app_nil_r in H. rewrite (jhead_skip _ H).
+  destruct (jdump b); [discriminate|reflexivity].
+Qed.
+Theorem sjson_append_unreadable b1 b2 :
+  exists c, bind (write_w Sjson b1) (fun c1 => write_file Sjson true c1 b2) = Ok c
+            /\ read_bytes Sjson (content_text c) = Err E_Value /\ read_content Sjson c = Err E_Value.
+Proof.
+  exists (CTree [enc_basket b1; enc_basket b2]). split; [reflexivity|]. split; [|reflexivity].
+  cbn [content_text map concat]. rewrite app_nil_r. unfold read_bytes, read_sjson_text. rewrite jload_two_docs. reflexivity.
+Qed.
